@@ -127,3 +127,24 @@ Definition mp_run (retryable chunked : bool) (n : nat) (form : fields) (fs : lis
 Definition full_parts (form : fields) (fs : list mfile) : list part :=
   field_parts form ++ map (fun f => mk_part f (mf_content f)) fs.
 End Upload.
+
+(* ---- a SetFileReader source handed over at a position past 0 ------------------------------
+   SetFileReader records where the reader stands (Seek(0, io.SeekCurrent)): the content supplied
+   starts there - the caller may have read a header or a magic number first.  The first
+   GetFileContent returns the reader as it stands; every later one seeks it back to that
+   position.  writeMultipartFormFile, on RetryAttempt > 0, seeks a content that is an
+   io.ReadSeeker to offset 0 - since 9ce4104 only for a caller's own GetFileContent, not for
+   SetFileReader sources ([self_rewinding]).  [seek_visible]: the content handed to the
+   multipart writer still shows Seek (the reader is an io.Closer and is returned as it is;
+   io.NopCloser hides Seek). *)
+Record rsource := mkSrc { rs_data : bytes; rs_start : nat }.
+
+Definition rs_content (s : rsource) : bytes := skipn (rs_start s) (rs_data s).
+
+Definition reader_pass (self_rewinding seek_visible : bool) (s : rsource) (att : Z) : bytes :=
+  if (att <=? 0)%Z then rs_content s
+  else if negb self_rewinding && seek_visible then rs_data s
+  else rs_content s.
+
+Definition mfile_at (param name : bytes) (k : fkind) (s : rsource) (used : bool) : mfile :=
+  mkFile param name k (rs_content s) used.
